@@ -722,6 +722,9 @@ impl Model for StrModel {
             kh.u(canary.is_some() as u64);
             kh.u(diverged as u64);
         }
+        if self.mode == SMode::Faults {
+            kh.u((n + 1 >= self.max_depth) as u64);
+        }
         let mut out = RunOut { key: kh.finish(), enabled: Vec::new(), nreq_last: 0, terminal: diverged, violations: Vec::new(), cov, outcome };
         if want_enabled && !diverged {
             out.enabled = self.enabled(&text, canary.is_some() as usize, n);
